@@ -232,6 +232,12 @@ def run_case(case, seed):
                 e = dense.relerr(MA, ref)
                 if not e <= 1e-9:
                     V("exact-adjoint", name, "max|M(adjoint) - M^H|/max|M| = %.3g" % e)
+                else:
+                    # the matrix was extracted on real unit vectors: imaginary parts must go through as well
+                    bad = dense.linearity_defects(fn, MA, oshape, 1e-9, pairs=False)
+                    trans += O + 2
+                    if bad:
+                        V("exact-adjoint", name, "adjoint is not C-linear in its array argument on probe %s (err %.3g): imaginary part dropped or conjugated" % bad[0])
     # ---- Linops must refuse what the functions refuse, and agree otherwise
     for lname, arg_shape, cap in (("ConvolveData", dshape, ff), ("ConvolveFilter", fshape, dd)):
         try:
